@@ -7,11 +7,14 @@ RULE = ("Twins ops: every group of equivalent entry points is run on private cop
         "RouterIdentity paths, NewKeyCertificate vs KeyCertificateFromCertificate(ReadCertificate), pointer vs value readers of Lease, Lease2, "
         "Date, Mapping, Signature (x3 constructors), SessionKey, SessionTag, ECIESSessionTag, Integer; NewKeyCertificateWithTypes vs "
         "CertificateBuilder.WithKeyTypes vs BuildKeyTypePayload; NewI2PString vs ToI2PString; NewIntegerFromInt vs EncodeIntN (C12 ops). "
-        "Judged per pair: same accept/reject, identical serialisation, identical remainder.")
+        "Judged per pair: same accept/reject, identical serialisation, identical remainder. The certificate builder is in addition a state "
+        "machine (Objects.tla): every sequence of WithType/WithKeyTypes/WithPayload/Validate/Build calls up to length 2 (3 thorough) over a "
+        "15-call alphabet plus 60 (600) random histories is replayed call by call, and after every call the result of Build() must equal what "
+        "the direct constructor NewCertificateWithType does on the (type, payload) the history determines.")
 ASSUME = [common.TRUSTED, "fast-path readers are compared only on inputs whose key certificate declares their key types"]
 META = {
     "level": "model_checking",
-    "technique": "twin relation (TwinGroup/TwinApplies) in the TLA+ trace specification; TLC-computed inputs replayed through every alternative entry point; pairwise agreement of (accept, serialisation, remainder) validated by TLC, each result also judged against the reference decoder",
+    "technique": "twin relation (TwinGroup/TwinApplies) in the TLA+ trace specification; TLC-checked state machine of the certificate builder (MC_Objects: contract vs implementation shape, 2 negative controls) with step-wise trace validation of replayed call histories; TLC-computed inputs replayed through every alternative entry point; pairwise agreement of (accept, serialisation, remainder) validated by TLC, each result also judged against the reference decoder",
     "text": ("Each twin is additionally judged on its own against the reference decoder, so two twins that regress together are still caught, and "
              "a fix or regression applied to one twin only shows as a disagreement. Covers the ~25 pairs named in the property over the C01 "
              "input space (all type pairs, certificate kinds, cut and appended inputs)."),
@@ -24,5 +27,9 @@ def check(run):
     common.gen_structs(run, fams1=("cert", "ident", "mapping"), fams2=("prims", "lease", "sig"))
     run.gen("Gen_Build", consts={"Fam": "keycert"}, tag="Gen_Build_keycert")
     run.gen("Gen_C19")
+    # the certificate builder as a state machine: every call history (Objects.tla), with its own exhaustive model and negative controls
+    from props import X04
+    X04.mc_objects(run)
+    run.gen("Gen_Objects")
     run.replay_and_judge()
     return vlib.finish(run, "model_checking", RULE, ASSUME)
